@@ -102,3 +102,65 @@ package regattaserver
 //@   ensures [C16.reject.txn] req == nil || len(req.Table) == 0 ==> err != nil && codeOf(err) == cInvalidArgument && s.Storage.scalls == old(s.Storage.scalls)
 //@   ensures [C16.codes.txn]  err != nil ==> codeOf(err) == cInvalidArgument || codeOf(err) == cNotFound || codeOf(err) == cUnavailable || codeOf(err) == cFailedPrecondition
 //@   modifies s.Storage.scalls
+
+// ---------------------------------------------------------------- follower API (C11, C16)
+
+// the leader's KV API as seen by a follower
+//@ ghostfield any.ccalls Int
+//@ iface regattapb.KVClient.Put
+//@   assumed
+//@   params c, ctx, in, opts
+//@   results resp, err
+//@   ensures c.ccalls == old(c.ccalls) + 1 && (err == nil ==> resp != nil && resp.Header != nil)
+//@   modifies c.ccalls
+//@ iface regattapb.KVClient.DeleteRange
+//@   assumed
+//@   params c, ctx, in, opts
+//@   results resp, err
+//@   ensures c.ccalls == old(c.ccalls) + 1 && (err == nil ==> resp != nil && resp.Header != nil)
+//@   modifies c.ccalls
+//@ iface regattapb.KVClient.Txn
+//@   assumed
+//@   params c, ctx, in, opts
+//@   results resp, err
+//@   ensures c.ccalls == old(c.ccalls) + 1 && (err == nil ==> resp != nil && resp.Header != nil)
+//@   modifies c.ccalls
+
+// waiting for the local copy: Add registers exactly one waiter for (table, revision) and hands back
+// its channel (ghost: number of waiters registered, revision of the last one)
+//@ ghostfield any.nwait Int
+//@ ghostfield any.lastRev uint64
+//@ iface regattaserver.propagationQueue.Add
+//@   assumed
+//@   params q, ctx, table, revision
+//@   results ch
+//@   ensures ch != nil && q.nwait == old(q.nwait) + 1 && q.lastRev == revision
+//@   modifies q.nwait, q.lastRev
+
+// ForwardingKVServer.Put: forwarded to the leader exactly once; acknowledged only after waiting (one
+// receive from Add's channel) for the revision the leader reported
+//@ func (*ForwardingKVServer).Put
+//@   results resp, err
+//@   requires r != nil && r.client != nil && r.q != nil && req != nil
+//@   ensures [C11.wait.put] r.client.ccalls == old(r.client.ccalls) + 1 && r.q.nwait <= old(r.q.nwait) + 1
+//@   ensures [C11.wait.rev] resp != nil ==> r.q.nwait == old(r.q.nwait) + 1 && resp.Header != nil && r.q.lastRev == resp.Header.Revision
+//@   modifies r.client.ccalls, r.q.nwait, r.q.lastRev
+
+//@ func (*ForwardingKVServer).DeleteRange
+//@   results resp, err
+//@   requires r != nil && r.client != nil && r.q != nil && req != nil
+//@   ensures [C11.wait.del] r.client.ccalls == old(r.client.ccalls) + 1 && r.q.nwait <= old(r.q.nwait) + 1
+//@   ensures [C11.wait.rev] resp != nil ==> r.q.nwait == old(r.q.nwait) + 1 && resp.Header != nil && r.q.lastRev == resp.Header.Revision
+//@   modifies r.client.ccalls, r.q.nwait, r.q.lastRev
+
+// ForwardingKVServer.Txn: a read-only transaction is answered locally THROUGH the validating KVServer;
+// any other is forwarded and waited for like a put
+//@ func (*ForwardingKVServer).Txn
+//@   results resp, err
+//@   requires r != nil && r.client != nil && r.q != nil && r.KVServer.Storage != nil && req != nil
+//@   requires (forall j int :: 0 <= j && j < len(req.Success) ==> req.Success[j] != nil) && (forall j int :: 0 <= j && j < len(req.Failure) ==> req.Failure[j] != nil)
+//@   ensures [C16.fwd.reject] len(req.Table) == 0 && old(allRange(req)) ==> err != nil && codeOf(err) == cInvalidArgument && r.KVServer.Storage.scalls == old(r.KVServer.Storage.scalls)
+//@   ensures [C11.wait.txn]   resp != nil && !old(allRange(req)) ==> r.q.nwait == old(r.q.nwait) + 1 && resp.Header != nil && r.q.lastRev == resp.Header.Revision
+//@   ensures [C16.fwd.local]  old(allRange(req)) ==> r.client.ccalls == old(r.client.ccalls)
+//@   modifies r.client.ccalls, r.q.nwait, r.q.lastRev, r.KVServer.Storage.scalls
+//@ pure func allRange(req *regattapb.TxnRequest) bool = (forall j int :: 0 <= j && j < len(req.Success) ==> typeIs(req.Success[j].Request, *regattapb.RequestOp_RequestRange)) && (forall j int :: 0 <= j && j < len(req.Failure) ==> typeIs(req.Failure[j].Request, *regattapb.RequestOp_RequestRange))
